@@ -1734,12 +1734,17 @@ func (p *PubSub) publishMessage(msg *Message) {
 }
 
 func (p *PubSub) publishMessageBatch(batchAndOpts messageBatchAndPublishOptions) {
+	toRoute := make([]*Message, 0, len(batchAndOpts.messages))
 	for _, msg := range batchAndOpts.messages {
 		p.tracer.DeliverMessage(msg)
 		p.notifySubs(msg)
+		// messages added WithLocalPublication stay in this process, as in publishMessage
+		if !msg.Local {
+			toRoute = append(toRoute, msg)
+		}
 	}
 	// We type checked when pushing the batch to the channel
-	p.rt.(BatchPublisher).PublishBatch(batchAndOpts.messages, batchAndOpts.opts)
+	p.rt.(BatchPublisher).PublishBatch(toRoute, batchAndOpts.opts)
 }
 
 type addTopicReq struct {
